@@ -97,10 +97,14 @@ def lane (r : Req) : Nat := r.adr % c.ratio
 def place {α : Type} (l : List α) (d : α) (g : Nat) : List α :=
   (List.range c.nbs).map fun j => if j / c.nbm = g then l.getD (j % c.nbm) d else d
 
+/-- `master.connect(slave, omit={adr, sel, dat_w, dat_r, cti, bte})`: the burst tags are not forwarded (fix
+    82f0bdf), the wide slave always sees classic cycles. -/
 def toSlave (_ : Unit) (r : Req) : Req :=
   { r with adr := r.adr / c.ratio
            sel := place c r.sel false (lane c r)
-           dat := place c r.dat 0 (lane c r) }
+           dat := place c r.dat 0 (lane c r)
+           cti := 0
+           bte := 0 }
 
 def toMaster (_ : Unit) (r : Req) (rsp : Rsp) : Rsp :=
   { ack := rsp.ack, dat := window rsp.dat 0 (lane c r * c.nbm) c.nbm, err := rsp.err }
